@@ -1094,9 +1094,47 @@ def rule_u14(F):
     return r
 
 
+def rule_u15(F):
+    """Type checking terminates in reasonable time: a checker method that visits a sub-expression twice on ONE path doubles the work
+    at every level of nesting (`a + b + c + ..`: 2^n visits; a sum of 30 terms took an hour before 25f6870).  The operator checker is
+    evaluated (vf/sx) for every binary operator: on no path is an operand handed to `expr` more than once."""
+    from .. import sx
+    OPS_ = ["Add", "Sub", "Mul", "Div", "Mod", "Eq", "Ne", "Lt", "Le", "Gt", "Ge", "And", "Or"]
+    r = RuleResult("C06.U15", "the operator type checker visits each operand at most once per path (no exponential re-checking of nested operands)", floor=13)
+    tps = [p for p in F.paths() if p.endswith("::binop") and p.startswith("typechecker::expr") and "{closure" not in p]
+    if not tps:
+        r.missing("typechecker binop")
+        return r
+    tb = F.body(tps[0])
+    opos = [i for i, p_ in enumerate(tb.hir["params"]) if "BinOp" in str(p_.get("ty") or "")]
+    enames = [p_.get("name") for p_ in tb.hir["params"] if "Meta<ast::Expr>" in str(p_.get("ty") or "")]
+    if not opos or len(enames) < 2:
+        r.missing("operator / operand parameters of the type checker's binop")
+        return r
+    topaque = {p for p in F.paths() if p.startswith("typechecker::") and p != tb.path and hir.last(p) in ("expr", "get_function_in_type", "unify", "resolve_type", "fresh_var", "fresh_int", "fresh_float")}
+    for op in OPS_:
+        try:
+            paths = sx.Exec(F, opaque=topaque, max_paths=4000).paths(tb.hir, {opos[0]: op})
+        except (sx.TooManyPaths, sx.Unknown) as e_:
+            r.bad(tb.path, "visits on " + op, relfile(tb.file), tb.line, "cannot evaluate the type checker's binop on BinOp::%s: %s" % (op, e_))
+            continue
+        worst = {}
+        for res, evs in paths:
+            for nm in enames:
+                n = sum(1 for e in evs if e[0] == "mcall" and e[1] == "expr" and e[3] and isinstance(e[3][-1], sx.Sym) and str(e[3][-1]) == nm)
+                worst[nm] = max(worst.get(nm, 0), n)
+        r.inst("BinOp::%s" % op, {"operator": op, "paths": len(paths), "most_visits_of_an_operand_on_one_path": worst})
+        for nm, n in worst.items():
+            if n > 1:
+                r.bad(tb.path, "operand `%s` checked %d times for %s" % (nm, n, op), relfile(tb.file), tb.line,
+                      "on one path of the operator checker the operand `%s` of BinOp::%s is type-checked %d times: nested operators multiply (a chain of n operators costs %d^n visits), "
+                      "so compilation of an ordinary long sum practically never ends" % (nm, op, n, n))
+    return r
+
+
 def rules(ctx):
     F = ctx["F"]
-    return [rule_u1(F), rule_u2(F), rule_u3(F), rule_u3b(F), rule_u4(F), rule_u5(F), rule_u6(F), rule_u7(F), rule_u8(F), rule_u9(F), rule_u10(F), rule_u11(F), rule_u12(F), rule_u13(F), rule_u14(F)]
+    return [rule_u1(F), rule_u2(F), rule_u3(F), rule_u3b(F), rule_u4(F), rule_u5(F), rule_u6(F), rule_u7(F), rule_u8(F), rule_u9(F), rule_u10(F), rule_u11(F), rule_u12(F), rule_u13(F), rule_u14(F), rule_u15(F)]
 
 
 def canary(C):
